@@ -140,78 +140,150 @@ func realDialScenarios(s *kit.Summary, table *dnsTable, tag string) {
 }
 
 // refreshScenario: with a positive ttl a changed DNS answer must come into use ("an address
-// currently resolved for it"); the old answer may be used until a refresh happened.
+// currently resolved for it", "every resolved address keeps being used"): for several shapes of
+// change — same length and same first address, same length only, same first address only, a
+// permutation of the same set, shrinking, growing, a family appearing or disappearing — the
+// host is dialled continuously; once the periodic refresh has demonstrably completed a full
+// round after the change (the in-process DNS server has seen the questions of a later round),
+// a few hundred dials must use exactly the NEW set: nothing withdrawn, every new address used,
+// one per family. All waits are lower bounds on elapsed time or observations of the DNS server.
 func refreshScenario(s *kit.Summary, table *dnsTable, tag string) {
-	host := "ttl-" + tag + ".c18.test"
-	oldIPs := []string{"10.3.0.1", "10.3.0.2", "2001:db8:33::1"}
-	newIPs := []string{"10.3.0.9", "2001:db8:33::9"}
+	v4 := func(sub int, xs ...int) []string {
+		var l []string
+		for _, x := range xs {
+			l = append(l, fmt.Sprintf("10.9.%d.%d", sub, x))
+		}
+		return l
+	}
+	v6 := func(sub int, xs ...int) []string {
+		var l []string
+		for _, x := range xs {
+			l = append(l, fmt.Sprintf("2001:db8:9%x::%x", sub, x))
+		}
+		return l
+	}
+	cat := func(ls ...[]string) []string {
+		var l []string
+		for _, x := range ls {
+			l = append(l, x...)
+		}
+		return l
+	}
+	type variant struct {
+		name     string
+		old, new []string
+	}
+	variants := []variant{
+		{"same_len_same_first", v4(0, 1, 2, 3), v4(0, 1, 4, 5)},
+		{"same_len_same_second", v4(1, 1, 2, 3), v4(1, 4, 2, 5)},
+		{"same_len_same_third", v4(2, 1, 2, 3), v4(2, 4, 5, 3)},
+		{"same_len_same_first_mixed", cat(v4(3, 1, 2), v6(3, 1, 2)), cat(v4(3, 1, 3), v6(3, 1, 3))},
+		{"same_len_only", v4(4, 1, 2, 3), v4(4, 4, 5, 6)},
+		{"same_first_shorter", v4(5, 1, 2, 3), v4(5, 1, 4)},
+		{"same_first_longer", v4(6, 1, 2, 3), v4(6, 1, 4, 5, 6)},
+		{"permutation", v4(7, 1, 2, 3), v4(7, 3, 1, 2)},
+		{"shrink_to_one", v4(8, 1, 2, 3, 4), v4(8, 2)},
+		{"grow_from_one", v4(9, 1), v4(9, 1, 2, 3, 4)},
+		{"family_appears", v4(10, 1, 2), cat(v4(10, 1, 2), v6(10, 1, 2))},
+		{"family_disappears", cat(v4(11, 1, 2), v6(11, 1, 2)), v6(11, 1, 3)},
+		{"all_replaced_mixed", cat(v4(12, 1, 2), v6(12, 1)), cat(v4(12, 9), v6(12, 9))},
+	}
+	for _, v := range variants {
+		if !refreshVariant(s, table, tag, v.name, v.old, v.new) {
+			return // the refresh does not happen at all: reported once
+		}
+	}
+}
+
+func refreshVariant(s *kit.Summary, table *dnsTable, tag, name string, oldIPs, newIPs []string) bool {
+	const ttl = 20 * time.Millisecond
+	host := "ttl-" + name + "-" + tag + ".c18.test"
+	host = strings.ReplaceAll(host, "_", "-")
 	table.set(host, oldIPs)
+	questions := func() int {
+		table.mu.Lock()
+		defer table.mu.Unlock()
+		return table.queries[strings.ToLower(host)+"."]
+	}
 	rec := newRecorder()
-	atk := vegeta.NewAttacker(vegeta.VerifBaseDial(rec.dial), vegeta.DNSCaching(20*time.Millisecond))
+	atk := vegeta.NewAttacker(vegeta.VerifBaseDial(rec.dial), vegeta.DNSCaching(ttl))
 	defer atk.Stop()
 	dial := atk.VerifDialContext()
-	s.Count("refresh:ttl_20ms")
-	s.Case("refresh:"+tag, true)
+	s.Count("refresh:" + name)
+	s.Case("refresh:"+name+":"+tag, true)
 	var id int64
-	in := func(set []string, a string) bool {
-		h, _, _ := net.SplitHostPort(a)
-		for _, x := range set {
-			if canonIP(x) == canonIP(h) {
-				return true
-			}
-		}
-		return false
-	}
 	one := func() []string {
 		id++
 		ctx := context.WithValue(context.Background(), dialIDKey{}, id)
 		dial(ctx, "tcp", host+":80")
 		rec.mu.Lock()
 		defer rec.mu.Unlock()
-		return append([]string(nil), rec.byDial[id]...)
+		var l []string
+		for _, a := range rec.byDial[id] {
+			h, _, _ := net.SplitHostPort(a)
+			l = append(l, canonIP(h))
+		}
+		delete(rec.byDial, id)
+		sort.Strings(l)
+		return l
 	}
-	bad := func(what string, got []string) {
-		s.Violate(kit.Violation{Kind: "dns_refresh", What: what, Input: map[string]interface{}{"scenario": "refresh", "ttl_ms": 20, "old": oldIPs, "new": newIPs},
-			Observed: fmt.Sprint(got), Key: map[string]interface{}{"scenario": "refresh"}})
+	bad := func(what, exp string, got interface{}) {
+		s.Violate(kit.Violation{Kind: "dns_refresh", What: what,
+			Input:    map[string]interface{}{"scenario": "refresh", "variant": name, "ttl_ms": 20, "old": oldIPs, "new": newIPs},
+			Expected: exp, Observed: fmt.Sprint(got), Key: map[string]interface{}{"scenario": "refresh", "variant": name}})
 	}
-	for i := 0; i < 30; i++ {
-		got := one()
-		for _, a := range got {
-			if !in(oldIPs, a) {
-				bad("before the change a dial went to an address that was never resolved", got)
-				return
+	// judge n dials against the set that is resolved now
+	judge := func(n int, set []string, phase string) bool {
+		famCount := map[int]int{}
+		member := map[string]bool{}
+		for _, ip := range set {
+			member[canonIP(ip)] = true
+			famCount[familyOf(ip)]++
+		}
+		used := map[string]int{}
+		for i := 0; i < n; i++ {
+			got := one()
+			fams := map[int]int{}
+			for _, a := range got {
+				if !member[a] {
+					bad(phase+": a connection attempt went to an address that is not (any longer) resolved for the host", fmt.Sprint(set), got)
+					return false
+				}
+				used[a]++
+				fams[familyOf(a)]++
+			}
+			if len(got) != len(famCount) || len(fams) != len(famCount) {
+				bad(phase+": a dial did not go to exactly one address per resolved IP family", fmt.Sprint(len(famCount), " families"), got)
+				return false
 			}
 		}
-		if len(got) != 2 {
-			bad("a dial did not go to one address per family", got)
-			return
+		for _, ip := range set {
+			if n >= windowFor(famCount[familyOf(ip)]) && used[canonIP(ip)] == 0 {
+				bad(fmt.Sprintf("%s: a resolved address was never used in %d dials", phase, n), canonIP(ip), used)
+				return false
+			}
 		}
+		return true
+	}
+	if !judge(30, oldIPs, "before the change") {
+		return true
 	}
 	table.set(host, newIPs)
-	// the new answer must be in use eventually: 20 consecutive dials on the new set within 15 s
-	// (750 refresh intervals; only old or new addresses are ever acceptable)
+	// keep the entry in use and wait for the questions of the THIRD refresh round after the change:
+	// rounds are sequential, so the second one ran entirely after the change and has been stored
+	q1 := questions()
+	perRound := 2 // A and AAAA
 	deadline := time.Now().Add(15 * time.Second)
-	streak := 0
-	for time.Now().Before(deadline) && streak < 20 {
-		got := one()
-		allNew := len(got) == 2
-		for _, a := range got {
-			if !in(oldIPs, a) && !in(newIPs, a) {
-				bad("a dial went to an address that was never resolved", got)
-				return
-			}
-			allNew = allNew && in(newIPs, a)
-		}
-		if allNew {
-			streak++
-		} else {
-			streak = 0
-			time.Sleep(5 * time.Millisecond)
-		}
+	for questions() < q1+3*perRound && time.Now().Before(deadline) {
+		one()
+		time.Sleep(ttl / 4)
 	}
-	if streak < 20 {
-		bad("the changed DNS answer never came into use although the cache ttl is 20ms (waited 15s)", nil)
+	if questions() < q1+3*perRound {
+		bad("the changed DNS answer never came into use although the cache ttl is 20ms: no periodic re-resolution within 15s", "periodic refresh", fmt.Sprintf("%d DNS questions since the change", questions()-q1))
+		return false
 	}
+	judge(300, newIPs, "after the refresh")
+	return true
 }
 
 // refreshIdleScenario: a host that sees no dial for several refresh intervals while its DNS
